@@ -2,6 +2,7 @@
 Write side: real writer.partition_on_columns (groupby shim, make_part_file stub), util.path_string, util.join_path.
 Read side: real api.paths_to_cats / _path_to_cats / util._strip_path_tail / val_to_num / val_from_meta and the
 partition lines of core.read_row_group.  Symbolic: the key values (ints, bools, short strings)."""
+import json
 import os
 from typing import List
 
@@ -269,6 +270,103 @@ def replay_h_hive_bool_and_two_columns(x, i_n, s):
               all(str(a) == s for a in out["r"]))
         if not ok:
             return True, "keys (p=%r, q=%r, r=%r) come back as %r" % (x, n, s, out[["p", "q", "r"]].values.tolist())
+        return False, "keys preserved"
+    finally:
+        shutil.rmtree(d, ignore_errors=True)
+
+
+SMALL = ["1", "a", "0"]
+
+
+def h_hive_two_levels(i1: int, i2: int, j1: int, j2: int, with_meta: bool, rev: bool) -> bool:
+    """
+    pre: 0 <= i1 < 2 and 0 <= i2 < 2 and 0 <= j1 < 3 and 0 <= j2 < 3
+    pre: (i1, j1) != (i2, j2)
+    post: __return__
+    """
+    # two partition levels whose value texts may coincide across levels (month=1/day=1): every level keeps its own
+    # label set, and each path reads back its own pair.  Texts come from a small table by symbolic index; with the
+    # pandas partition metadata (string columns) and without it (kind inferred from the text).  The directory set
+    # built by _strip_path_tail is a Python set: its iteration order is arbitrary (hash seed), so it is symbolic here.
+    a1, a2, b1, b2 = SMALL[i1], SMALL[i2], SMALL[j1], SMALL[j2]
+    saved = util.np
+    saved_strip = api._strip_path_tail
+    util.np = _NPu
+    api._strip_path_tail = lambda paths: sorted(saved_strip(paths), reverse=bool(rev))
+    try:
+        paths, opened, dirs = _written_paths(["p", "q"], [(a1, b1), (a2, b2)], True)
+        meta = {"p": dict(META["str"], field_name="p"), "q": dict(META["str"], field_name="q")} if with_meta else None
+        scheme, cats = api.paths_to_cats(paths, meta)
+        if scheme != "hive" or list(cats) != ["p", "q"] or len(set(paths)) != 2:
+            return False
+        if sorted(str(x) for x in cats["p"]) != sorted(set([a1, a2])):
+            return False
+        if sorted(str(x) for x in cats["q"]) != sorted(set([b1, b2])):
+            return False
+        return (str(_read_back(paths[0], cats, "p", scheme, meta)) == a1 and
+                str(_read_back(paths[0], cats, "q", scheme, meta)) == b1 and
+                str(_read_back(paths[1], cats, "p", scheme, meta)) == a2 and
+                str(_read_back(paths[1], cats, "q", scheme, meta)) == b2)
+    finally:
+        util.np = saved
+        api._strip_path_tail = saved_strip
+
+
+def replay_h_hive_two_levels(i1, i2, j1, j2, with_meta, rev):
+    # set iteration order depends on the interpreter's hash seed: the read is repeated in child interpreters with
+    # several seeds; the witness reproduces if any of them fails
+    import subprocess, sys
+    last = (False, "keys preserved")
+    for seed in range(6):
+        env = dict(os.environ, PYTHONHASHSEED=str(seed))
+        r = subprocess.run([sys.executable, "-c",
+                            "import sys, json; sys.path[:0] = json.loads(sys.argv[1]); "
+                            "from vf.pyshim import h_c08; "
+                            "print(json.dumps(h_c08._replay_two_levels(*json.loads(sys.argv[2]))))",
+                            json.dumps(sys.path), json.dumps([i1, i2, j1, j2, bool(with_meta)])],
+                           capture_output=True, text=True, env=env, timeout=300)
+        if r.returncode != 0:
+            return None, "replay child failed: " + r.stderr[-300:]
+        ok, msg = json.loads(r.stdout.strip().splitlines()[-1])
+        if ok:
+            return True, msg + " (PYTHONHASHSEED=%d)" % seed
+        last = (ok, msg)
+    return last
+
+
+def _replay_two_levels(i1, i2, j1, j2, with_meta):
+    import shutil, tempfile
+    import pandas as pd
+    import fastparquet
+    rows = [(SMALL[i1], SMALL[j1]), (SMALL[i2], SMALL[j2])]
+    d = tempfile.mkdtemp(prefix="c08-")
+    try:
+        # one plain file per directory, opened as a list (no pandas partition metadata) or written as a hive dataset
+        if with_meta:
+            df = pd.DataFrame({"p": [r[0] for r in rows], "q": [r[1] for r in rows], "v": [0, 1]})
+            dn = os.path.join(d, "ds")
+            fastparquet.write(dn, df, file_scheme="hive", partition_on=["p", "q"])
+            src = dn
+        else:
+            src = []
+            for k, (a, b) in enumerate(rows):
+                dd = os.path.join(d, "p=%s" % a, "q=%s" % b)
+                os.makedirs(dd, exist_ok=True)
+                fn = os.path.join(dd, "part.%d.parquet" % k)
+                fastparquet.write(fn, pd.DataFrame({"v": [k]}))
+                src.append(fn)
+        try:
+            out = fastparquet.ParquetFile(src).to_pandas()
+        except Exception as ex:
+            return True, "partition directories %r cannot be read back: %s: %s" % (rows, type(ex).__name__, str(ex)[:80])
+        missing = [c for c in ("p", "q") if c not in out.columns]
+        if missing:
+            return True, "partition levels %r: column(s) %r missing from the read (columns %r)" % (
+                rows, missing, list(out.columns))
+        got = sorted((int(v), str(a), str(b)) for v, a, b in zip(out["v"], out["p"], out["q"]))
+        want = sorted((k, a, b) for k, (a, b) in enumerate(rows))
+        if got != want:
+            return True, "partition levels %r come back as %r" % (want, got)
         return False, "keys preserved"
     finally:
         shutil.rmtree(d, ignore_errors=True)
